@@ -17,6 +17,12 @@ chk("C03", "venum",
     "Trusted: Go stdlib time.ParseDuration/x509/ssh decoders; the AST clock rewrite (verifgen) reaches every clock read in cmd/keymasterd, lib/certgen, x/time/rate. Cloud-role path is covered by C10/C20 issuance and its fixed 24h template, not by this product.",
     "DESIGN.md 3 C03")
 
+chk("C01", "venum",
+    "exhaustive enumeration of finite products (all 2^9 configuration subsets x all 2^11 session level bit sets; credential shapes x configurations x certificate types x methods x sealed) executed on the real certGenHandler, compared with a reference model",
+    "The authentication gate of the real certGenHandler is evaluated for every subset of the nine configurable method names and every one of the 2^11 session-level bit sets (1.05M evaluations), and ~50 credential shapes (none, basic-auth, cookies with one claim wrong each and signed with the real key, foreign key, alg none, HMAC-with-public-key, keymaster client certificates, IP-restricted certificates inside/outside their netblocks with realistic verified chains, operator-CA certificates) are run end-to-end against configurations, certificate types, HTTP methods and a sealed server. Safety (issued => mayIssue) and liveness on canonical rows (mustIssue => issued) against a reference model written from the statement.",
+    "Trusted: Go crypto/x509 chain verification (used to compute r.TLS.VerifiedChains exactly as crypto/tls does), go-jose, the stated interpretations (password listed => any valid credential; boundary shapes not judged). Levels outside the 12 defined bits are covered by 7 representatives only.",
+    "DESIGN.md 3 C01")
+
 NOT_YET = {
 }
 
